@@ -159,11 +159,34 @@ func NewAdjust() *JAdjust {
 		Rlimits: []JRlimit{}, CdiDevices: []string{}, Args: []string{}}
 }
 
+// NearN added to a value selector gives the "near" twin of value n: the same item with the same
+// identifying fields (mount type and source, device type and numbers, rlimit hard limit) that
+// differs ONLY in a secondary field (content - not number - of the options, file mode, soft
+// limit). A shortcut that compares values carelessly takes the twin for the value itself.
+const NearN = 50
+
 func mkMount(dst string, who, n int) JMount {
+	if n >= NearN && n < ZeroN {
+		m := mkMount(dst, who, n-NearN)
+		m.Options = []string{"rbind", fmt.Sprintf("x%d", who)}
+		if (n-NearN)%2 == 1 {
+			m.Options = []string{fmt.Sprintf("o%d", who), "rbind"} // same options, other order
+		}
+		return m
+	}
 	return JMount{Destination: dst, Type: "bind", Source: fmt.Sprintf("/src/p%d/%d", who, n), Options: []string{"rbind", fmt.Sprintf("o%d", who)}}
 }
 
 func mkDevice(path string, who, n int) JDevice {
+	if n >= NearN && n < ZeroN {
+		d := mkDevice(path, who, n-NearN)
+		if d.FileMode != nil {
+			d.FileMode = u32(*d.FileMode ^ 0o66)
+		} else {
+			d.FileMode = u32(0o640)
+		}
+		return d
+	}
 	d := JDevice{Path: path, Type: "c", Major: int64(10 + who), Minor: int64(n)}
 	if n%2 == 0 {
 		d.FileMode = u32(0o600 + uint32(who))
@@ -195,7 +218,12 @@ func SetAdj(a *JAdjust, it Item, who, n int) {
 		if n == ZeroN {
 			a.Rlimits = append(a.Rlimits, JRlimit{it.Key, 0, 0})
 		} else {
-			a.Rlimits = append(a.Rlimits, JRlimit{it.Key, uint64(2000 + 10*who + n), uint64(1000 + 10*who + n)})
+			if n >= NearN {
+				// same hard limit as value n-NearN, another soft limit
+				a.Rlimits = append(a.Rlimits, JRlimit{it.Key, uint64(2000 + 10*who + n - NearN), uint64(1000 + 10*who + n)})
+			} else {
+				a.Rlimits = append(a.Rlimits, JRlimit{it.Key, uint64(2000 + 10*who + n), uint64(1000 + 10*who + n)})
+			}
 		}
 	case "cgroupsPath":
 		a.HasLinux = true
@@ -412,6 +440,7 @@ func Systematic() []sysCase {
 	shapes := []string{"adjacent", "apart", "disjoint", "single-prepopulated", "rm-then-set", "middle-lone-rm", "ignored",
 		"same-value", "same-as-original", "multi-removal", "multi-removal-reset",
 		"noop-then-rm", "noop-then-rmset", "noop-reset-then-rmset",
+		"near-original", "near-original-rmset", "near-earlier-rmset",
 		"zero-single", "zero-adjacent", "zero-then-value", "ignored-partial-unified"}
 	for _, it := range AllItems() {
 		for _, p := range paths {
@@ -430,6 +459,12 @@ func Systematic() []sysCase {
 					continue
 				}
 				if strings.HasPrefix(shape, "noop-") && !(p.path == "adjust" && Removable[it.Kind]) {
+					continue
+				}
+				if strings.HasPrefix(shape, "near-") && !(p.path == "adjust" && (it.Kind == "mount" || it.Kind == "device" || it.Kind == "rlimit")) {
+					continue
+				}
+				if shape != "near-original" && strings.HasPrefix(shape, "near-") && !Removable[it.Kind] {
 					continue
 				}
 				if strings.HasPrefix(shape, "zero-") && !HasZero(it.Kind) {
@@ -505,6 +540,22 @@ func Systematic() []sysCase {
 						setOn(&rsp[a], p.path, p.target, it, 7, 0, false)
 						setOn(&rsp[a+1], p.path, p.target, it, a+1, 1, false)
 						primeOriginal(&in, p.path, p.target, it, 7, 0)
+					case "near-original":
+						// a plugin sets the item to the near twin of what the original container
+						// carries (same identity, one secondary field differs): it IS a change
+						primeOriginal(&in, p.path, p.target, it, 7, 0)
+						setOn(&rsp[a+1], p.path, p.target, it, 7, NearN, false)
+					case "near-original-rmset":
+						// ... the same with an explicit removal first, and (odd twin: same mount
+						// options in another order)
+						primeOriginal(&in, p.path, p.target, it, 7, 1)
+						setOn(&rsp[a], p.path, p.target, it, 7, NearN+1, false)
+						RemoveAdj(rsp[a].Adjust, it, true)
+					case "near-earlier-rmset":
+						// a later plugin takes an earlier plugin's item over with its near twin
+						setOn(&rsp[a], p.path, p.target, it, 7, 0, false)
+						setOn(&rsp[a+2], p.path, p.target, it, 7, NearN, false)
+						RemoveAdj(rsp[a+2].Adjust, it, true)
 					case "noop-then-rm":
 						// a plugin sets the item to the value the original container already
 						// carries (a no-op for the container, but a claim); a later plugin removes
